@@ -363,7 +363,10 @@ impl Node for {it.ident} {{
 def emit_uenum(it):
     vs = [vname(i) + variant_decl(form, fs) + ("" if it.discs is None else " = %d" % it.discs[i]) for i, (form, fs) in enumerate(it.variants)]
     # (another attribute in front of #[default] when the default variant is not the first one)
-    vs = [(("/// the default variant\n    #[default] " if it.dflt else "#[default] ") if i == it.dflt else "") + v for i, v in enumerate(vs)]
+    # (only where the first variant is a unit variant: a macro that picks the wrong default must still compile,
+    # so that the wrong default is REPORTED rather than the harness failing to build)
+    doc_first = bool(it.dflt) and it.variants[0][0] == "unit"
+    vs = [(("/// the default variant\n    #[default] " if doc_first else "#[default] ") if i == it.dflt else "") + v for i, v in enumerate(vs)]
     vdesc = ", ".join("vec![%s]" % ", ".join(desc_of(f) for f in fs) for _, fs in it.variants)
     read_arms = walk_arms = apply_arms = probe_arms = emp_arms = ""
     for i, (form, fs) in enumerate(it.variants):
@@ -557,6 +560,8 @@ def catalog(thorough):
     # a tail vector of composite elements whose SIZE is not a multiple of the struct's ALIGN (the struct's extent
     # is the rounded-up extent of its tail)
     add(get(UStruct, [U64, Vec(Arr(U32, 2), U32)])); add(get(UStruct, [U32, Vec(Arr(U8, 3), U8)])); add(get(UStruct, [U64, Vec(P_u8u32, U16)]))
+    # #[default] on a non-first variant behind a doc comment, the first variant being a unit variant as well
+    add(get(UEnum, "u8", [("unit", []), ("tuple", [U16]), ("unit", [])], 2)); add(get(UEnum, "u16", [("unit", []), ("tuple", [V88]), ("tuple", [U32]), ("unit", [])], 3))
     # a zero-sized but ALIGNED field in the middle of a field list (every statement of the layout rule must pad for it)
     add(get(UStruct, [U8, Arr(U32, 0), U8, V88])); add(get(UStruct, [U8, Arr(U64, 0), U8, Str(U8)]))
     add(get(UEnum, "u8", [("unit", []), ("tuple", [U8, Arr(U64, 0), U8, U32]), ("named", [U8, Arr(U32, 0), V88])], 0))
